@@ -5,13 +5,20 @@
 (* out of the VIEW.                                                       *)
 EXTENDS GroupSub, TLC
 
-CONSTANTS Consumers, MaxEpoch, MaxSubs, MaxOps, UsePlain, UseBad, UseBurst, UseFollower, UseBounded, C0
-VARIABLES last, nOps
-mcvars == <<vars, last, nOps>>
+CONSTANTS Consumers, MaxEpoch, MaxSubs, MaxOps, UsePlain, UseBad, UseBurst, UseFollower, UseBounded, C0,
+          UseRace,       \* loop exit racing with a subscribe (DoRace)
+          MaxElect,      \* number of leader changes (0 = none)
+          StrandedKnown  \* TRUE = states of the open finding C13-member-stranded-on-former-leader (an
+                         \* active group member on a server that does not lead) are not judged, so that
+                         \* the rest of the space is still explored; FALSE = they are (the counterexample
+                         \* is replayed on the real code)
+VARIABLES last, nOps, nEl
+mcvars == <<vars, last, nOps, nEl>>
 
-Step(a) == /\ nOps < MaxOps /\ nOps' = nOps + 1 /\ last' = a
+StepE(a, el) == /\ nOps < MaxOps /\ nOps' = nOps + 1 /\ last' = a /\ nEl' = nEl + el
+Step(a) == StepE(a, 0)
 
-MCInit == Init /\ last = [a |-> "Open"] /\ nOps = 0
+MCInit == Init /\ last = [a |-> "Open"] /\ nOps = 0 /\ nEl = 0
 
 \* Requests are generated where their dimensions matter: the ReadISRReplica
 \* flag and the follower only with the first consumer / epoch 1 / valid
@@ -34,6 +41,17 @@ MCBurst(g, c1, c2, e) ==
   /\ DoBurst(g, <<c1, c2>>, e)
   /\ Step([a |-> "Burst", g |-> g, cs |-> <<c1, c2>>, e |-> e])
 
+\* the ending subscription's clean-up and a subscribe of the same group on the same
+\* server contend for consumersMu (valid open-ended requests only)
+MCRace(s, c, e) ==
+  /\ UseRace /\ s \in Idx /\ subs[s].g # NoGroup /\ subs[s].n = ldr
+  /\ Len(subs) < MaxSubs
+  /\ LET q == [n |-> subs[s].n, ris |-> FALSE, g |-> subs[s].g, c |-> c, e |-> e, bad |-> FALSE, stop |-> "none"] IN
+     /\ DoRace(s, q)
+     /\ Step([a |-> "Race", s |-> s, q |-> q])
+
+MCElect == /\ nEl < MaxElect /\ DoElect /\ StepE([a |-> "Elect"], 1)
+
 MCCancel(s) == DoCancelByClient(s) /\ Step([a |-> "Cancel", s |-> s])
 MCLoopExit(s) == DoLoopExit(s) /\ Step([a |-> "LoopExit", s |-> s])
 
@@ -41,6 +59,8 @@ MCNext ==
   \/ \E n \in Nodes, ris \in BOOLEAN, g \in Groups \cup {NoGroup}, c \in Consumers, e \in 1..MaxEpoch,
         bad \in BOOLEAN, stop \in {"none", "bounded"} : MCSubscribe(n, ris, g, c, e, bad, stop)
   \/ \E g \in Groups, c1 \in Consumers, c2 \in Consumers, e \in 1..MaxEpoch : MCBurst(g, c1, c2, e)
+  \/ \E s \in 1..MaxSubs, c \in Consumers, e \in 1..MaxEpoch : MCRace(s, c, e)
+  \/ MCElect
   \/ \E s \in 1..MaxSubs : MCCancel(s)
   \/ \E s \in 1..MaxSubs : MCLoopExit(s)
 
@@ -49,12 +69,17 @@ MCSpec == MCInit /\ [][MCNext]_mcvars
 \* every step, as the code performs it, satisfies what C13 demands of it
 StepOK ==
   LET a == last' IN
+  IF StrandedKnown /\ (Stranded(subs, ldr) \/ Stranded(subs', ldr')) THEN TRUE ELSE
   CASE a.a = "Subscribe" -> P_Subscribe(a.q)
     [] a.a = "Burst" -> P_Burst(a.g, a.cs, a.e)
     [] a.a = "Cancel" -> P_Cancel(a.s)
     [] a.a = "LoopExit" -> P_LoopExit(a.s)
+    [] a.a = "Race" -> P_Race(a.s, a.q)
+    [] a.a = "Elect" -> P_Elect
     [] OTHER -> TRUE
+\* C13_OneActive outside the situation of the open finding
+MC_OneActive == (StrandedKnown /\ Stranded(subs, ldr)) \/ C13_OneActive
 StepsOK == [][StepOK]_mcvars
 
-MCView == <<subs, reg, nOps>>
+MCView == <<subs, reg, ldr, nOps, nEl>>
 =============================================================================
